@@ -8,7 +8,7 @@ CLAIMS = {
         "note": TB,
     },
     "C02": {
-        "text": "Theorems strict_validation / soft_validation / conditional_request / qualified_fields_stripped: for every request, stored entry and environment, when the RFC-level conditions (unqualified no-cache, stale+must-revalidate, request no-cache; request max-age exceeded) hold the model performs exactly one origin call with the client's header list plus the stored validators and returns the stored response iff that call answered 304 (stale-if-error only for the soft case), else the origin's reply or failure; fields named by a qualified no-cache are absent from every response served without validation. Correspondence + Spec monitor on the real transport.",
+        "text": "Theorems strict_validation / soft_validation / conditional_request / qualified_fields_stripped: for every request, stored entry and environment, when the RFC-level conditions (unqualified no-cache, stale+must-revalidate, request no-cache; request max-age exceeded) hold the model performs exactly one origin call with the client's header list plus the stored validators and returns the stored response iff that call answered 304 (stale-if-error only for the soft case), else the origin's reply or failure; fields named by a qualified no-cache are absent from every response served without validation; the field-name lists of repeated qualified no-cache directives accumulate and are split at EVERY comma, whatever bytes a member holds (qualified_lists_accumulate, qualified_names_after_a_comma). Correspondence + Spec monitor on the real transport (header and trailer section of what is served).",
         "note": TB,
     },
     "C06": {
@@ -38,7 +38,7 @@ CLAIMS.update({
         "note": TB + " url.Parse, ResolveReference (dot-segment removal) and EscapedPath are stdlib glue; http(s) URLs with empty Opaque.",
     },
     "C04": {
-        "text": "Theorems matcher_selects_matching_reference, reference_records_storing_request, variant_isolation, star_never_matches: for an arbitrary q-value normaliser and an arbitrary hash, the matcher only selects a reference without '*' whose every recorded (field, value) equals the request's normalised value, and what is recorded is the storing request's normalised values of all fields of all Vary lines; hence a request matches a reference only if it agrees with the storing request on every nominated field. PARTIAL: entry/reference pairing across a history (needs hash injectivity) is checked by the token-provenance monitor and the correspondence.",
+        "text": "Theorems matcher_selects_matching_reference, reference_records_storing_request, variant_isolation, star_never_matches: for an arbitrary q-value normaliser and an arbitrary hash, the matcher only selects a reference without '*' whose every recorded (field, value) equals the request's normalised value, and what is recorded is the storing request's normalised values of all fields of all Vary lines; hence a request matches a reference only if it agrees with the storing request on every nominated field; the nominated names are the members of the Vary value split at every comma, whatever bytes a member holds (vary_names_split_at_every_comma, star_member_is_seen_anywhere). PARTIAL: entry/reference pairing across a history (needs hash injectivity) is checked by the token-provenance monitor and the correspondence.",
         "note": TB,
     },
     "C07": {
@@ -72,7 +72,7 @@ CLAIMS.update({
 })
 CLAIMS.update({
     "C05": {
-        "text": "Theorems hop_by_hop_complete (regenerated set ⊇ RFC list), hop_by_hop_removed, stored_entry_is_origin_minus_hop (what is written is the reply's status and body unchanged and its fields minus hop-by-hop, only after a complete body read), served_status_and_body, end_to_end_fields_preserved (every stored field except the cache's own three and qualified no-cache fields is returned with exactly the stored values), parsed_entry_has_no_hop_by_hop. PARTIAL: the entry serialisation is net/http (Codec hypothesis): its round trip is tested end to end — chunked, close-delimited, HTTP/1.0, bodies with CR/LF/NUL/framing look-alikes up to 1 MiB, multi-valued and odd fields, memory / file-system / encrypted / reopened backends — by the byte-level monitor and the correspondence.",
+        "text": "Theorems hop_by_hop_complete (regenerated set ⊇ RFC list), hop_by_hop_removed, stored_entry_is_origin_minus_hop (what is written is the reply's status and body unchanged and its fields minus hop-by-hop, only after a complete body read), served_status_and_body, end_to_end_fields_preserved (every stored field except the cache's own three and qualified no-cache fields is returned with exactly the stored values), parsed_entry_has_no_hop_by_hop, connection_names_after_a_comma (a name after a comma of a Connection line is hop-by-hop whatever stands before the comma). PARTIAL: the entry serialisation is net/http (Codec hypothesis): its round trip is tested end to end — chunked, close-delimited, HTTP/1.0, bodies with CR/LF/NUL/framing look-alikes up to 1 MiB, multi-valued and odd fields, memory / file-system / encrypted / reopened backends — by the byte-level monitor and the correspondence.",
         "note": TB + " HTTP/2 and a real http.Transport against a TCP origin are not exercised (the scripted origin parses wire bytes with http.ReadResponse).",
     },
 })
@@ -86,7 +86,7 @@ CLAIMS.update({
         "note": TB + " POSIX / kernel file-system semantics are assumed.",
     },
     "C17": {
-        "text": "Theorems encryption_requested_never_plaintext / option_without_usable_key_fails (model of fromURL / WithEncryption: requesting encryption yields an encrypting backend with a usable key or a failed open, never plaintext), and — over an abstract ideal AEAD — decrypt_encrypt, accepted_files_are_genuine (whatever bytes are on disk, if Get accepts them the file is exactly a genuine encryption of the returned value: altered, truncated or extended files are rejected), wrong_key_yields_nothing, same_value_different_files (given distinct nonces). PARTIAL: AES-GCM and crypto/rand are assumptions. The harness checks every way of switching encryption on, unusable keys, scans the real files for plaintext fragments, compares repeated writes, modifies every byte / truncates / extends a stored file, and reads with a wrong key and with no key.",
+        "text": "Theorems encryption_requested_never_plaintext / option_without_usable_key_fails (model of fromURL / WithEncryption: requesting encryption yields an encrypting backend with a usable key or a failed open, never plaintext), plaintext_only_when_not_asked (a DSN opens a plaintext store only when its encrypt parameter is absent, empty or \"off\"; the model fromURL is itself run against store.Open on a grid of spellings × key classes), and — over an abstract ideal AEAD — decrypt_encrypt, accepted_files_are_genuine (whatever bytes are on disk, if Get accepts them the file is exactly a genuine encryption of the returned value: altered, truncated or extended files are rejected), wrong_key_yields_nothing, same_value_different_files (given distinct nonces). PARTIAL: AES-GCM and crypto/rand are assumptions. The harness checks every way of switching encryption on, unusable keys, scans the real files for plaintext fragments, compares repeated writes, modifies every byte / truncates / extends a stored file, and reads with a wrong key and with no key.",
         "note": TB + " Cryptographic strength is assumed (ideal AEAD, fresh nonces).",
     },
 })
